@@ -6,19 +6,22 @@ TECH = "contract-based deductive verification of the real code: "
 CLAIMS = {
  "C05": ("proof", "Kani/CBMC harness-stated contracts (panic / overflow / unreachable freedom) on the real arithmetic and filter kernels, full machine domain",
          "Totality of every bounds-arithmetic kernel (natural ranges, depth / size variance operators, depth-window functions), of the filter kernels and of the span arithmetic, for all usize inputs: Kani's built-in panic, overflow, unwrap/expect and unreachable checks are the postcondition. Partial: the parser, the rule checker, the encoder, regex compilation, recursion depth and stack use are outside any obligation.",
-         "Known finding C05.overflow-expect (bounds whose exact sum / product exceeds usize::MAX hit expect()). Products are bounded (repetition bounds enumerated <= 3 or open). T1-T6 of DESIGN §3."),
+         "Known finding C05.overflow-expect (bounds whose exact sum / product exceeds usize::MAX hit expect()). Products: totality for all usize bounds over the multiplication oracle (which never overflows) plus enumerated repetition bounds <= 3 or open with real multiplication (bounded). T1-T6 of DESIGN §3."),
+ "C06": ("proof", "Kani harness-stated contracts on the decision tables of the branch rule, hoisted verbatim from the body of rule::branch on every run, and on the starting / ending sequencers",
+         "Thin: the per-branch decision tables of the branch rule -- check_branch, check_alternation, check_repetition, the neighbour predicates (through the real starting / ending token walks) and Outer::or -- reject a branch exactly when the property says so, for every kind of leaf terminal and every kind of leaf neighbour (and for a rooted nested branch in first position); the Starting / Ending sequencers visit exactly the first / last token of a concatenation and every branch of an alternation (bounded: <= 3 children). NOT decided: the breadth-first driver of rule::branch that supplies terminals and neighbours (one genuine defect lives there and is documented, DESIGN 10.13), the `boundary`, `bounds` and `size` rules (closures in iterator pipelines), the parser's own adjacency checks, flags.",
+         "rule::branch driver loop (shared `outer` variable), rule::{boundary,bounds,size}, token walks over branch neighbours (T3), the parser assumed. One genuine defect found by C06.branch.rooted.nested and repaired (F5, e11552a)."),
  "C09": ("proof", "Kani harness-stated contracts on term-level kernels of the exhaustiveness fold + Verus verbatim When::certainty",
          "Thin: the term-level verdict is sound (an exhaustive depth variance is upward closed, a non-exhaustive one is bounded above; a conjunctive term's verdict is definite), the repetition stride rule of TreeExhaustiveness::finalize, the leaf predicate the sequencer applies, and `certainty` never averaging away a non-exhaustive alternative. The sequencer scan (enqueue), the discard rule (fold) and the tree-level parent/child protocol are assumed - the known false positives (`**/{a}`) live there.",
          "TreeExhaustiveness::{enqueue,fold}, Token::fold driver, DisjunctiveTerm (HashSet) assumed; encoder conformance assumed (C01)."),
  "C10": ("proof", "Kani harness-stated contracts (interval soundness via membership, component-counting ground truth) + Verus verbatim Termination::conjunction + Verus lemma",
-         "Depth algebra: x in gamma(a), y in gamma(b) => x+y in gamma(a /\\ b) and x in gamma(a) or gamma(b) => x in gamma(a \\/ b) for all bounds below 2^62 (complete); products for enumerated repetition bounds (bounded) plus a Verus lemma for every repetition count. Component counting: an INDUCTION over the real code -- every real leaf term satisfies a representation relation, the real SeparatedTerm conjunction preserves it for ANY two terms of any variance shape (outside the known-finding region), the real Repetition::finalize preserves it (bounded repetition counts), and the real finalize then contains the component count -- composed by a Verus lemma to every expression built from leaves by concatenation and conjunctive bracketing of any size and nesting; cross-checked against a concrete component count for all bracketed leaf sequences up to length 4. The fold driver and DisjunctiveTerm (alternation) are assumed.",
+         "Depth algebra: x in gamma(a), y in gamma(b) => x+y in gamma(a /\\ b) and x in gamma(a) or gamma(b) => x in gamma(a \\/ b) for all bounds below 2^62 (complete); products for ALL usize bounds: the real product over a multiplication ORACLE (the two checked_mul primitives stubbed by an arbitrary function constrained only by facts of multiplication; Verus proves the product of naturals satisfies them, and a second lemma carries the interval ends to every repetition count), cross-checked by enumerated repetition bounds (bounded). Component counting: an INDUCTION over the real code -- every real leaf term satisfies a representation relation, the real SeparatedTerm conjunction preserves it for ANY two terms of any variance shape (outside the known-finding region), the real Repetition::finalize preserves it (bounded repetition counts), and the real finalize then contains the component count -- composed by a Verus lemma to every expression built from leaves by concatenation and conjunctive bracketing of any size and nesting; cross-checked against a concrete component count for all bracketed leaf sequences up to length 4. The fold driver and DisjunctiveTerm (alternation) are assumed.",
          "Known findings C10.bracket-before-tree (`/{a/**}`, `**/a{b/**}` over-report the lower bound) and C10.optional-edge-text (`<a:0,1>/b` reports 2, matches /b). Zero repetitions in the middle of an expression are not covered. Token::fold driver (T3), DisjunctiveTerm set operations, encoder conformance (C01), T6 rule guarantees as preconditions."),
  "C11": ("proof", "Kani harness-stated contracts on the leaf-level sources of text variance and on character casing",
          "Thin: every leaf-level source of variance reports variant text (wildcards, negated classes, ranges with distinct end points in either order, one-archetype classes invariant exactly when they list one character, cased literal under a mismatching case flag) and a character with any case mapping has casing (all of char, thorough tier). The Text algebra (conjunction / repetition / to_string of fragments) is out of reach (measured again this round), so 'the reported text is the one matched path' is not decided.",
          "Text (VecDeque<Cow<str>>) operators, TextVariance conversion and the fold driver assumed; literals bounded to <= 2 ASCII characters."),
  "C12": ("proof", "Kani harness-stated contracts + Verus verbatim When::{and,or,certainty}",
-         "Thin: the rooting classification of leaves (is_rooting <=> separator or rooted tree wildcard); the trivalent operators meeting their Kleene / interval semantics (and(x, Sometimes) is never Always); the REAL components() splitting a concatenation into exactly its path components (bounded: 3 leaf tokens) and a one-literal component being semantic exactly when spelled `.` or `..`. The has_root fold closure and Token::literals (tree search) are not nameable / out of reach.",
-         "Token::has_root's local Fold impl, the fold driver, components() batching and the encoder assumed."),
+         "Thin: the rooting classification of leaves (is_rooting <=> separator or rooted tree wildcard); the trivalent operators meeting their Kleene / interval semantics (and(x, Sometimes) is never Always); the REAL components() splitting a concatenation into exactly its path components (bounded: 3 leaf tokens) and a one-literal component being semantic exactly when spelled `.` or `..`. The REAL fold and leaf term of Token::has_root (a Fold impl local to the function body, hoisted verbatim on every run): alternation = join of its branches, concatenation = its first token, repetition = its body weakened to 'never Always' when it may occur zero times; the REAL Starting sequencer hands a concatenation exactly its first token and an alternation every branch. Token::literals (tree search) is out of reach.",
+         "The fold driver (T3), components() batching, the rule checker (no sometimes-rooted glob is built, C06) and the encoder (a rooted tree wildcard is encoded as rooted, C01) assumed."),
  "C13": ("proof", "Kani harness-stated contracts with a counting mock CancelWalk on the real filter.rs and walk combinators + Verus lemma",
          "Partial: WHEN the real code asks for cancellation: a tree verdict cancels the input exactly once unless the entry is already tree residue, never for a file verdict / keep / Err, at most once per entry across stacked layers, and cancellation is forwarded to the input unchanged by every combinator; for negations with a real program (all four program shapes, the regex engine abstracted to an arbitrary oracle) a tree is discarded exactly when the EXHAUSTIVE program matched. That walkdir's skip_current_dir then prunes exactly that directory is assumed.",
          "walkdir::IntoIter::skip_current_dir semantics, WalkTree::is_dir bookkeeping, the glob walker's component-matching closure, the regex engine (oracle) and the exhaustive / non-exhaustive partition of FilterAny::any (C09 at tree level) assumed (T4)."),
@@ -29,7 +32,7 @@ CLAIMS = {
          "One layer is the lattice join keep < file < tree with the payload preserved and the filter observing every non-Err entry exactly once (also entries already discarded upstream); two stacked real FilterEntry layers; Verus lemmas lift the one-layer contract to any stack and show order independence.",
          "The `filtrate` loop is bounded (<= 3 items); Not is exercised with the empty program only (regex is_match stubbed, unreachable); walkdir assumed."),
  "C17": ("proof", "Kani harness-stated contracts on span arithmetic, parse-error span, un-rooting",
-         "Partial: the parse-error span lies on character boundaries inside the expression (fragment of <= 2 arbitrary characters), span union and un-rooting arithmetic stay inside the expression and delimit the right text, rule-error and capture spans are reported as stored. Token spans produced by pori and partition's offset closure are assumed.",
+         "Partial: the parse-error span lies on character boundaries inside the expression (fragment of <= 2 arbitrary characters), span union and un-rooting arithmetic stay inside the expression and delimit the right text, rule-error and capture spans are reported as stored; partition's pop_expression_bytes (hoisted from the function body) removes exactly the offset in BYTES (bounded: <= 4 bytes). Token spans produced by pori and the rest of partition's body (offset sum, span rewrite closure, the owned / borrowed arms) are assumed.",
          "pori::span (T4), the partition offset rewrite (a closure) and everything that builds spans from parser output assumed."),
  "C18": ("proof", "Kani harness-stated contracts over all of char against parser constants re-extracted each run + Verus verbatim predicates + Verus tokenisation lemma; escape bounded",
          "Meta-character set = parser stop set minus separator / backslash = escapable set, for every char, against constants re-read from the parser on every run; contextual set likewise; a Verus lemma shows escape-then-tokenise is the identity for any text without backslash; the structure of `escape` itself is only a bounded check (<= 2 ASCII characters).",
@@ -46,7 +49,6 @@ NA = {
  "C02": "needs a directory tree, walkdir, compiled regexes and a regex-language inclusion; the component-alignment arithmetic sits in a closure and in std::path calls (symbolic depth: no result in 7 min); DirEntry cannot be constructed without a file system",
  "C03": "the equivalence pruning = per-entry filtering is C09 at tree level composed with two compiled regexes and a file system; its reachable kernels (residue -> cancellation, forwarding through Not) are decided under C13/C16/C20",
  "C04": "capture extents are the regex engine's; the group/token correspondence is a property of encode (see C01); Glob::captures needs a compiled Regex",
- "C06": "all rule logic is nested fns / closures over token trees inside iterator pipelines in rule.rs: not nameable by Kani harnesses, reachable only through the generic Walk driver (intractable), outside Verus' subset",
  "C07": "each law is an equation between the languages of two outputs of encode (see C01)",
  "C08": "partition / invariant_text_prefix run through the generic fold driver and Text; Glob::partition recompiles a regex; only the un-rooting span arithmetic is reachable and is decided under C17",
  "C14": "entry types wrap walkdir::DirEntry (constructed only by reading a directory); join_and_get_depth / split_at_depth are std::path computations (symbolic: no result in 7 min; concrete: a test, not a proof)",
@@ -69,7 +71,7 @@ m = {
  "setup_cmd": "python3 tools/setup.py",
  "hooks": {
   "guard": "cfg(kani) / cfg(verif_replay): set only by cargo-kani and by the native replay build of a scratch copy; no hook is committed to /repo",
-  "enable": "python3 tools/check.py <id> copies /repo's working tree to a scratch directory, appends `#[cfg(any(kani, verif_replay))] #[path=...] pub(crate) mod verif_kani_<unit>;` lines (add-only, diff-checked each run) and runs `cargo kani` there; Verus obligations extract the named functions verbatim from /repo on every run",
+  "enable": "python3 tools/check.py <id> copies /repo's working tree to a scratch directory, appends `#[cfg(any(kani, verif_replay))] #[path=...] pub(crate) mod verif_kani_<unit>;` lines (add-only, diff-checked each run) and runs `cargo kani` there; items nested in function bodies (rule::branch's tables, Token::has_root's Fold impl, partition's pop_expression_bytes) are copied verbatim from /repo into the harness module on every run (tools/vextract.py hoist-all); Verus obligations extract the named functions verbatim from /repo on every run",
   "baseline_off_cmd": "cd /repo && cargo test --workspace --no-fail-fast --offline",
   "source_commits": [],
   "add_only": True,
